@@ -69,7 +69,7 @@ theorem unescapeUni_digits (pat : Bool) (rest : List Char) :
       unescapeUni pat v nd (ds ++ '}' :: rest) =
         match charOfCode (hexValue v ds) with
         | .error e => .error e
-        | .ok ch => (unescapeGo pat rest).map (.char ch :: ·) := by
+        | .ok ch => (unescapeGo pat rest).map (elemOf pat ch :: ·) := by
   intro ds
   induction ds with
   | nil =>
@@ -92,7 +92,7 @@ theorem unescapeUni_digits (pat : Bool) (rest : List Char) :
     simp [hexValue, hexVal_hexDigitChar k hk]
 
 theorem unescapeEsc_unicode (pat : Bool) (c : Char) (rest : List Char) :
-    unescapeEsc pat ('u' :: '{' :: (hexDigits 6 c.toNat ++ '}' :: rest)) = (unescapeGo pat rest).map (.char c :: ·) := by
+    unescapeEsc pat ('u' :: '{' :: (hexDigits 6 c.toNat ++ '}' :: rest)) = (unescapeGo pat rest).map (elemOf pat c :: ·) := by
   have hlt : c.toNat < 16 ^ 6 := by
     have hv : c.toNat < 55296 ∨ 57343 < c.toNat ∧ c.toNat < 1114112 := c.valid
     omega
@@ -136,22 +136,22 @@ theorem unescapeGo_escapeChar (pat : Bool) (esc : Bool) (c : Char) (rest : List 
   by_cases h6 : c = '\''
   · subst h6; simp [unescapeGo, unescapeEsc]
   simp only [h0, h1, h2, h3, h4, h5, h6, if_false]
+  have hel : elemOf pat c = .char c := by
+    unfold elemOf
+    cases pat with
+    | false => simp
+    | true => simp at hstar; simp [hstar]
   cases esc with
   | true =>
     simp only [if_true, List.cons_append]
     rw [unescapeGo]
-    rw [List.append_assoc]
+    rw [List.append_assoc, ← hel]
     exact unescapeEsc_unicode pat c rest
   | false =>
     simp only [Bool.false_eq_true, if_false, List.cons_append, List.nil_append]
     rw [unescapeGo]
     · simp only [h5, h2, if_false]
-      have : elemOf pat c = .char c := by
-        unfold elemOf
-        cases pat with
-        | false => simp
-        | true => simp at hstar; simp [hstar]
-      rw [this]
+      rw [hel]
     · intro hc; exact h4 hc
 
 theorem unescapeGo_escapeStrAt (me : Nat → Char → Bool) : ∀ (s : List Char) (i : Nat),
